@@ -146,7 +146,7 @@ impl<const N: usize> Two<N> {
     }
 
     /// StackInv (S1-S5 of DESIGN.md §4) for a stack `st[0..len]` (index 0 = bottom)
-    pub fn stack_inv<const FAM: u8, const K: usize>(&self, st: &[Ent; K], len: usize) -> bool {
+    pub fn stack_inv<const FAM: u8, const ANN: bool, const K: usize>(&self, st: &[Ent; K], len: usize) -> bool {
         let mut ok = len <= K;
         let mut i = 0;
         while i < K {
@@ -214,10 +214,10 @@ impl<const N: usize> Two<N> {
                         x += 1;
                     }
                     // S4: annotations are the true longest matches of the anchor
-                    if FAM == UNION {
+                    if ANN && FAM == UNION {
                         ok = ok && e.ll == self.lpm_l(&an);
                     }
-                    if FAM == UNION || FAM == DIFF {
+                    if ANN && (FAM == UNION || FAM == DIFF) {
                         ok = ok && e.lr == self.lpm_r(&an);
                     }
                 }
@@ -251,12 +251,12 @@ impl<const N: usize> Two<N> {
     }
 }
 
-pub fn any_ent<S: Src, const FAM: u8, const N: usize>(s: &mut S) -> Ent {
+pub fn any_ent<S: Src, const FAM: u8, const ANN: bool, const N: usize>(s: &mut S) -> Ent {
     let k = s.u8();
     let l = s.idx(N);
     let r = s.idx(N);
-    let ll = if FAM == UNION { s.opt_idx(N) } else { None };
-    let lr = if FAM == UNION || FAM == DIFF { s.opt_idx(N) } else { None };
+    let ll = if ANN && FAM == UNION { s.opt_idx(N) } else { None };
+    let lr = if ANN && (FAM == UNION || FAM == DIFF) { s.opt_idx(N) } else { None };
     Ent { k, l, r, ll, lr }
 }
 
@@ -317,18 +317,40 @@ pub struct Item {
 
 /// Read-only and mutable twins of each family. MUT twins: UnionMut, IntersectionMut, DifferenceMut,
 /// CoveringDifferenceMut.
-pub fn run<S: Src, const FAM: u8, const MUT: bool, const INIT: bool, const N: usize, const K: usize, const K1: usize>(s: &mut S) {
+/// `TOPK`: 255 = any stack; otherwise the stack holds exactly K entries, the top one of kind
+/// `TOPK`, and the top entry is assumed to yield an item at once (one loop body of `next()`).
+pub fn run<S: Src, const FAM: u8, const MUT: bool, const INIT: bool, const ANN: bool, const TOPK: u8, const N: usize, const K: usize, const K1: usize>(s: &mut S) {
     let t = two::<S, N>(s);
     let mut st = [NOENT; K];
     let mut len = 0;
     if !INIT {
         let mut i = 0;
         while i < K {
-            st[i] = any_ent::<S, FAM, N>(s);
+            st[i] = any_ent::<S, FAM, ANN, N>(s);
             i += 1;
         }
-        len = s.idx(K + 1);
-        s.assume(t.stack_inv::<FAM, K>(&st, len));
+        if TOPK == 255 {
+            len = s.idx(K + 1);
+        } else {
+            len = K;
+            st[K - 1].k = TOPK;
+            let e = &st[K - 1];
+            let lv = t.a[e.l].1.is_some();
+            let rv = t.b[e.r].1.is_some();
+            let emits = match (FAM, TOPK) {
+                (UNION, 0) => lv || rv,
+                (UNION, 1) | (UNION, 3) => lv,
+                (UNION, _) => rv,
+                (INTER, 0) => lv && rv,
+                (INTER, _) => false,
+                (DIFF, 0) => lv && !rv,
+                (COVDIFF, 0) => lv && !rv,
+                (_, 1) | (_, 3) => lv,
+                _ => false,
+            };
+            s.assume(emits);
+        }
+        s.assume(t.stack_inv::<FAM, ANN, K>(&st, len));
     }
     let (mut ma, mut mb) = mk_both(&t);
     #[cfg(kani)]
@@ -573,7 +595,7 @@ pub fn run<S: Src, const FAM: u8, const MUT: bool, const INIT: bool, const N: us
     let sel_x = t.selected_l::<FAM>(x);
 
     if INIT {
-        check!(s, t.stack_inv::<FAM, K1>(&post, plen), "C05,C06,C07,C08:constructor establishes the stack invariant (kinds, order, closure, LPM seeds)");
+        check!(s, t.stack_inv::<FAM, ANN, K1>(&post, plen), "C05,C06,C07,C08:constructor establishes the stack invariant (kinds, order, closure, LPM seeds)");
         match FAM {
             UNION => {
                 check!(s, post_l == t.ent_l(x) && post_r == t.ent_r(y), "C05:initially every entry of both views remains to be visited");
@@ -695,7 +717,7 @@ pub fn run<S: Src, const FAM: u8, const MUT: bool, const INIT: bool, const N: us
                     }
                     check!(s, pa_nodes[x] == ea && pb_nodes[y] == eb, "C13:writes through a *_mut set operation land exactly on the yielded entries");
                 }
-                check!(s, t.stack_inv::<FAM, K1>(&post, plen), "C05,C06,C07,C08:stack invariant preserved by next()");
+                check!(s, t.stack_inv::<FAM, ANN, K1>(&post, plen), "C05,C06,C07,C08:stack invariant preserved by next()");
             }
         }
     }
